@@ -147,6 +147,12 @@ Definition pwl_kernel_weights (cyclic : bool) (is_missing : Q) (kps lens : list 
   let w := pwl_weights kps lens x in
   map (fun a => Qred ((1 - is_missing) * a)) (if cyclic then cyclic_fold w else w).
 
+(* the layer's output for one unit: cyclic calibrators append the height that
+   makes all heights sum to zero; missing inputs are imputed *)
+Definition pwl_eval (cyclic : bool) (is_missing missing_out : Q) (kps lens K : list Q) (x : Q) : Q :=
+  let bias_and_heights := if cyclic then K ++ [- qsum (tl K)] else K in
+  is_missing * missing_out + (1 - is_missing) * dot (pwl_weights kps lens x) bias_and_heights.
+
 (* -- CategoricalCalibration: one_hot(index, depth = num_buckets) after the
    default_input_value replacement; out-of-range indices give the zero vector -- *)
 Definition cat_index (num_buckets : nat) (default : option Z) (i : Z) : Z :=
@@ -164,6 +170,12 @@ Definition cat_weights (num_buckets : nat) (default : option Z) (i : Z) : list Q
 (* kernel of one term: K[d][k] (dimension d, vertex k); interpolation weights
    per dimension ws[d][k]; dotprod_d = sum_k ws[d][k] * K[d][k];
    term = scale_t * prod_d dotprod_d; out = bias + mean_t term. *)
+Fixpoint set_nth_g {A} (i : nat) (v : A) (l : list A) : list A :=
+  match l, i with
+  | [], _ => []
+  | _ :: r, O => v :: r
+  | x :: r, S i' => x :: set_nth_g i' v r
+  end.
 Definition kfl_dots (ws K : list (list Q)) : list Q := map2 dot ws K.
 Definition kfl_term (ws : list (list Q)) (scale : Q) (K : list (list Q)) : Q := scale * prod (kfl_dots ws K).
 Definition kfl_out (ws : list (list Q)) (bias : Q) (scales : list Q) (Ks : list (list (list Q))) : Q :=
@@ -180,3 +192,19 @@ Definition kfl_grad_kernel (ws : list (list Q)) (nterms : nat) (scale : Q) (K : 
   map2 (fun g w => map (fun a => Qred (scale / qnat nterms * g * a)) w) (grad_prod (kfl_dots ws K)) ws.
 Definition kfl_grad_scale (ws : list (list Q)) (nterms : nat) (K : list (list Q)) : Q :=
   prod (kfl_dots ws K) / qnat nterms.
+
+(* derivative of the 1-D weights w.r.t. the input, at a point where they are
+   differentiable (not on a kink): clip_by_value is flat outside the range,
+   [1 - x, x] has slopes [-1, 1], a hat has slope +1 left of its vertex and -1
+   right of it within distance 1 *)
+Definition hat_dx (x : Q) (k : nat) : Q :=
+  if qlt (qabs (x - qnat k)) 1 then (if qlt x (qnat k) then 1 else -(1)) else 0.
+Definition kfl_dw1d (clip : bool) (size : nat) (x : Q) : list Q :=
+  if clip && (qlt x 0 || qlt (qnat size - 1) x) then repeat 0 size
+  else if Nat.eqb size 2 then [-(1); 1] else map (hat_dx x) (seq 0 size).
+(* gradient delivered for input d (upstream gradient of the output = 1) *)
+Definition kfl_grad_input (ws dws : list (list Q)) (scales : list Q) (Ks : list (list (list Q))) : list Q :=
+  let T := length scales in
+  map (fun d => Qred (qsum (map2 (fun s K => s / qnat T * nth d (grad_prod (kfl_dots ws K)) 0
+                                             * dot (nth d dws []) (nth d K [])) scales Ks)))
+      (seq 0 (length ws)).
